@@ -529,7 +529,7 @@ func (s *StatsCtx) fillCollectedStatsDaily(
 	for i, u := range units {
 		day := i / 24
 
-		data.DNSQueries[day] += u.NTotal
+		data.DNSQueries[day] += 2 * u.NTotal
 		data.BlockedFiltering[day] += u.NResult[RFiltered]
 		data.ReplacedSafebrowsing[day] += u.NResult[RSafeBrowsing]
 		data.ReplacedParental[day] += u.NResult[RParental]
